@@ -43,7 +43,7 @@ __CPROVER_requires(__CPROVER_is_fresh(self, sizeof(*self)))
 __CPROVER_assigns()
 __CPROVER_ensures(__CPROVER_return_value == IC4_SAME(*self, rhs))
 //@end
-//@harness h_IC4_eq enforce=IC4_eq props=C13 reach=3 timeout=60
+//@harness h_IC4_eq enforce=IC4_eq props=C13 reach=3 timeout=60 min_obl=68
 void h_IC4_eq(void)
 {
   IC4 *a; IC4 b;
@@ -58,7 +58,7 @@ __CPROVER_requires(__CPROVER_is_fresh(self, sizeof(*self)))
 __CPROVER_assigns()
 __CPROVER_ensures(__CPROVER_return_value == !IC4_SAME(*self, rhs))
 //@end
-//@harness h_IC4_ne enforce=IC4_ne props=C13 reach=3 timeout=60
+//@harness h_IC4_ne enforce=IC4_ne props=C13 reach=3 timeout=60 min_obl=68
 void h_IC4_ne(void)
 {
   IC4 *a; IC4 b;
@@ -74,7 +74,7 @@ __CPROVER_requires(__CPROVER_is_fresh(self, sizeof(*self)) && P3_wf(*self) && P3
 __CPROVER_assigns()
 __CPROVER_ensures(__CPROVER_return_value == P3_same(*self, rhs))
 //@end
-//@harness h_P3_eq enforce=Permutation3_eq props=C13 reach=3 timeout=60
+//@harness h_P3_eq enforce=Permutation3_eq props=C13 reach=3 timeout=60 min_obl=53
 void h_P3_eq(void)
 {
   Permutation3 *a; Permutation3 b;
@@ -88,7 +88,7 @@ __CPROVER_requires(__CPROVER_is_fresh(self, sizeof(*self)) && P3_wf(*self) && P3
 __CPROVER_assigns()
 __CPROVER_ensures(__CPROVER_return_value == !P3_same(*self, rhs))
 //@end
-//@harness h_P3_ne enforce=Permutation3_ne props=C13 reach=3 timeout=60
+//@harness h_P3_ne enforce=Permutation3_ne props=C13 reach=3 timeout=60 min_obl=53
 void h_P3_ne(void)
 {
   Permutation3 *a; Permutation3 b;
@@ -102,7 +102,7 @@ __CPROVER_requires(__CPROVER_is_fresh(self, sizeof(*self)) && P4_wf(*self) && P4
 __CPROVER_assigns()
 __CPROVER_ensures(__CPROVER_return_value == P4_same(*self, rhs))
 //@end
-//@harness h_P4_eq enforce=Permutation4_eq props=C13 reach=3 timeout=60
+//@harness h_P4_eq enforce=Permutation4_eq props=C13 reach=3 timeout=60 min_obl=60
 void h_P4_eq(void)
 {
   Permutation4 *a; Permutation4 b;
@@ -116,7 +116,7 @@ __CPROVER_requires(__CPROVER_is_fresh(self, sizeof(*self)) && P4_wf(*self) && P4
 __CPROVER_assigns()
 __CPROVER_ensures(__CPROVER_return_value == !P4_same(*self, rhs))
 //@end
-//@harness h_P4_ne enforce=Permutation4_ne props=C13 reach=3 timeout=60
+//@harness h_P4_ne enforce=Permutation4_ne props=C13 reach=3 timeout=60 min_obl=60
 void h_P4_ne(void)
 {
   Permutation4 *a; Permutation4 b;
@@ -140,7 +140,7 @@ __CPROVER_requires(__CPROVER_is_fresh(self, sizeof(*self)))
 __CPROVER_assigns()
 __CPROVER_ensures(__CPROVER_return_value == self->Vanishing)
 //@end
-//@harness h_TPGF_isVanishing enforce=TwoParticleGF_isVanishing props=C13 reach=1 timeout=60
+//@harness h_TPGF_isVanishing enforce=TwoParticleGF_isVanishing props=C13 reach=1 timeout=60 min_obl=33
 void h_TPGF_isVanishing(void)
 {
   struct TwoParticleGF *g;
@@ -156,7 +156,7 @@ __CPROVER_assigns(VERIF_thrown)
 __CPROVER_ensures(VERIF_thrown == (Position > 3))
 __CPROVER_ensures(!VERIF_thrown ==> __CPROVER_return_value == (Position == 0 ? self->C1.Index : Position == 1 ? self->C2.Index : Position == 2 ? self->CX3.Index : self->CX4.Index))
 //@end
-//@harness h_TPGF_getIndex enforce=TwoParticleGF_getIndex props=C13 reach=3 timeout=60
+//@harness h_TPGF_getIndex enforce=TwoParticleGF_getIndex props=C13 reach=3 timeout=60 min_obl=61
 void h_TPGF_getIndex(void)
 {
   struct TwoParticleGF *g; unsigned long pos;
@@ -183,7 +183,7 @@ __CPROVER_assigns(i)
 __CPROVER_loop_invariant(i <= g_pj)
 __CPROVER_decreases(6 - (int)i)
 //@end
-//@harness h_TPGF_getPermutationNumber enforce=TwoParticleGF_getPermutationNumber props=C13 reach=1 timeout=60
+//@harness h_TPGF_getPermutationNumber enforce=TwoParticleGF_getPermutationNumber props=C13 reach=1 timeout=60 min_obl=84
 void h_TPGF_getPermutationNumber(void)
 {
   struct TwoParticleGF *g; Permutation3 p;
@@ -193,7 +193,7 @@ void h_TPGF_getPermutationNumber(void)
 }
 unsigned short nondet_ushort(void);
 /* the table itself: six pairwise different permutations with sign = parity (so every permutation of 3 elements is listed) */
-//@harness h_permutations3_table enforce=none loops=0 props=C13 unwind=7 reach=1 timeout=60
+//@harness h_permutations3_table enforce=none loops=0 props=C13 unwind=7 reach=1 timeout=60 min_obl=97
 void h_permutations3_table(void)
 {
   for (int i = 0; i < 6; i++) {
